@@ -407,6 +407,51 @@ Section Orch.
 
   Lemma results_sound_l : forall es, I5 (run es).
   Proof. intros es. apply (run_inv I5 I5_stable). split; [constructor | intros ? []]. Qed.
+  (* ---------- completeness of result collection ---------- *)
+  Definition I6 (st : ost) : Prop :=
+    forall s, In s p -> collects s = true -> incl (uuids s) (finished st) -> In (sid s) (results st ++ yielded st).
+
+  Lemma I6_visit : forall st s, In s p -> I3 st -> I6 st -> I6 (visit st s).
+  Proof.
+    intros st s Hs HI3 H6 t Ht Hct Hfin. pose proof HI3 as [_ H3].
+    destruct (visit_cases st s) as [|Hdone Hc Hf|d f Hrq Hdj Hc Hf _ _ _ _]; cbn in *.
+    - apply H6; assumption.
+    - destruct (Nat.eq_dec (sid t) (sid s)) as [E|E].
+      + assert (t = s) by (apply sid_inj; auto). subst t. rewrite Hct. left; reflexivity.
+      + assert (Hfin' : incl (uuids t) (finished st)).
+        { intros u Hu. specialize (Hfin u Hu). apply in_app_or in Hfin. destruct Hfin as [Hx|Hx]; [|exact Hx].
+          exfalso. apply E. f_equal. apply (uuids_disjoint t s u); auto. }
+        specialize (H6 t Ht Hct Hfin'). destruct (collects s); [right|]; exact H6.
+    - apply H6; assumption.
+  Qed.
+
+  Definition I36 (st : ost) : Prop := I3 st /\ I6 st.
+  Lemma I36_stable : stable I36.
+  Proof.
+    split; [intros st s Hs [H3 H6]; split; [apply I3_visit | apply I6_visit]; assumption|].
+    split; [intros st H; exact H|]. split.
+    - intros st [H3 H6]. split; [exact H3|]. intros s Hs Hc Hf. cbn. specialize (H6 s Hs Hc Hf). cbn in H6. exact H6.
+    - intros st s ok [H3 H6]. split; [apply I3_stable; exact H3|]. unfold worker_done.
+      destruct (mem s (started_ids st) && negb (mem s (done st)) && negb (mem s (failed st))); exact H6.
+  Qed.
+
+  (* at normal exit the collected results are exactly the requested feature-group steps, each once:
+     the set of result tables (by step) does not depend on the back end or on the schedule *)
+  Lemma exit_results_l : forall es, loop_head p (run es) = ExitNormal ->
+    NoDup (results (run es) ++ yielded (run es)) /\
+    forall x, In x (results (run es) ++ yielded (run es)) <-> exists s, In s p /\ sid s = x /\ collects s = true.
+  Proof.
+    intros es Hex. destruct (results_sound_l es) as [Hnd H5]. split; [exact Hnd|]. intros x. split.
+    - intros Hx. destruct (H5 x Hx) as (s & Hs & E & Hc & _). exists s; auto.
+    - intros (s & Hs & <- & Hc).
+      assert (H36 : I36 (run es)).
+      { apply (run_inv I36 I36_stable). split; [exact I3_init|]. intros t Ht _ Hf. exfalso.
+        pose proof (uuids_nonempty t Ht). destruct (uuids t) as [|u r]; [congruence|]. exact (Hf u (or_introl eq_refl)). }
+      apply (proj2 H36 s Hs Hc).
+      unfold loop_head in Hex. destruct (failed (run es)); [|discriminate]. destruct (finished (run es)) eqn:Ef; [discriminate|].
+      destruct (subset (all_uuids p) (n :: l)) eqn:Esub; [|discriminate]. apply subset_incl in Esub.
+      intros u Hu. apply Esub. unfold all_uuids. apply in_flat_map. exists s; auto.
+  Qed.
 End Orch.
 
 (* ---------- streaming vs batch: the same event trace in both variants ---------- *)
@@ -478,4 +523,18 @@ Proof.
   intros inline fails p es. pose proof (stream_batch_sim_l inline fails p es) as H.
   split; [|symmetry; apply sim_loop_head; exact H].
   destruct H as (_ & _ & _ & _ & _ & _ & H7 & _). rewrite H7, stream_results_empty_l. reflexivity.
+Qed.
+
+(* the batch loop on an empty plan never exits (outside C04's quantifier; shows why `p <> []` is a premise) *)
+Lemma empty_plan_spins_l : forall n, loop_head [] (run false true (fun _ => false) [] (repeat EScan n)) = Looping.
+Proof.
+  intros n. unfold run.
+  assert (H : forall st, finished st = [] -> failed st = [] ->
+              loop_head [] (fold_left (apply false true (fun _ => false) []) (repeat EScan n) st) = Looping).
+  { induction n as [|n IH]; intros st Hf Hfl.
+    - cbn. unfold loop_head. rewrite Hfl, Hf. reflexivity.
+    - cbn [repeat fold_left]. apply IH.
+      + cbn. unfold scan, loop_head. rewrite Hfl, Hf. cbn. exact Hf.
+      + cbn. unfold scan, loop_head. rewrite Hfl, Hf. cbn. exact Hfl. }
+  apply H; reflexivity.
 Qed.
